@@ -1,6 +1,6 @@
 (* C07 — variable rules fire exactly when the spec condition is violated. *)
 From GT Require Import Visitor Validate.
-From GTS Require Import Annot WfSchema SpecRules SpecValues SpecValid.
+From GTS Require Import Annot WfSchema SpecRules SpecValues SpecValid PoolSchemas.
 From GTP Require Import C07_proofs C07_graph_proofs C07_position_proofs.
 
 Theorem C07_unique_variable_names : forall s d,
@@ -37,12 +37,16 @@ Theorem C07_allowed_core_weak : forall s vd lt ld, wf_schema s = true ->
 Proof. exact allowed_core_weak. Qed.
 Print Assumptions C07_allowed_core_weak.
 
-Theorem C07_no_undefined_variables : forall s d, distinct_fragments d = true -> distinct_operations d = true ->
+(* NoUndefinedVariables / NoUnusedVariables / VariablesInAllowedPosition key the tables of an
+   operation by (index of the operation in the document, name): the equivalences hold for every
+   document, also when operations share a name or several are anonymous (no hypothesis on the
+   names of operations) *)
+Theorem C07_no_undefined_variables : forall s d, distinct_fragments d = true ->
   (run_alone R_NoUndefinedVariables s d <> [] <-> violated R_NoUndefinedVariables s d = true).
 Proof. exact no_undefined_variables_iff. Qed.
 Print Assumptions C07_no_undefined_variables.
 
-Theorem C07_no_unused_variables : forall s d, distinct_fragments d = true -> distinct_operations d = true ->
+Theorem C07_no_unused_variables : forall s d, distinct_fragments d = true ->
   (run_alone R_NoUnusedVariables s d <> [] <-> violated R_NoUnusedVariables s d = true).
 Proof. exact no_unused_variables_iff. Qed.
 Print Assumptions C07_no_unused_variables.
@@ -54,18 +58,28 @@ Print Assumptions C07_no_unused_variables.
    one).  Without it the equivalence is false (C07_position_needs_const_defaults): the rule also
    records the variables met inside default values, as usages at the declared type of the
    variable being defined, e.g.  query Q($a: Int = $b, $b: String) { f }  is reported.
-   The hypotheses [doc_types_proper d] and [negb (violated R_VariablesAreInputTypes s d)] are not
+   The hypotheses [doc_types_proper d], [distinct_fragments d] and
+   [negb (violated R_VariablesAreInputTypes s d)] are not
    used by the proof (only the location type has to be an input type, which the well-formed
    schema guarantees; a variable of unknown or non-input type is judged alike by both sides). *)
 Theorem C07_variables_in_allowed_position : forall s d,
   wf_schema s = true -> doc_types_proper d = true ->
-  distinct_fragments d = true -> distinct_operations d = true ->
+  distinct_fragments d = true ->
   negb (violated R_VariablesAreInputTypes s d) = true ->
   defaults_const d = true ->
   (run_alone R_VariablesInAllowedPosition s d <> [] <-> violated R_VariablesInAllowedPosition s d = true).
 Proof. exact variables_in_allowed_position_iff. Qed.
 Print Assumptions C07_variables_in_allowed_position.
 
+(* the same with the hypotheses the proof uses only *)
+Theorem C07_variables_in_allowed_position_core : forall s d,
+  wf_schema s = true -> defaults_const d = true ->
+  (run_alone R_VariablesInAllowedPosition s d <> [] <-> violated R_VariablesInAllowedPosition s d = true).
+Proof. exact variables_in_allowed_position_core. Qed.
+Print Assumptions C07_variables_in_allowed_position_core.
+
+(* ([distinct_operations cex_doc] is no hypothesis of the theorem any more; it is kept here as a
+   fact about the counterexample: one named operation) *)
 Theorem C07_position_needs_const_defaults :
   wf_schema cex_schema = true /\ doc_types_proper cex_doc = true /\
   distinct_fragments cex_doc = true /\ distinct_operations cex_doc = true /\
@@ -74,3 +88,36 @@ Theorem C07_position_needs_const_defaults :
   violated R_VariablesInAllowedPosition cex_schema cex_doc = false.
 Proof. exact position_needs_const_defaults. Qed.
 Print Assumptions C07_position_needs_const_defaults.
+
+(* the repaired behaviour on the witness of the defect: two ANONYMOUS operations, the first defines
+   and uses $v, the second has no variables:
+       query ($v: Int) { t(x: $v) { a } }   { a }
+   on schema pool_minimal.  Each operation has its own table (keys (0, None) and (1, None)):
+   NoUndefinedVariables run alone reports nothing, as the specification says.  (With the tables
+   keyed by name only, entering the second operation emptied the table of the first, whose use
+   of $v was then reported as undefined.)  The same holds with the operations in the other order,
+   and for NoUnusedVariables. *)
+Definition w_pos : pos := (0%N, 0%N).
+Definition w_span : span := (w_pos, w_pos).
+Definition w_leaf : selection := SField w_pos None "a" [] [] w_span [].
+Definition w_op_with_var : definition :=
+  DOp (mkOperation OpQuery w_pos None [mkVardef w_pos "v" (TNamed "Int") None] [] w_span
+         [SField w_pos None "t" [("x", VVar "v")] [] w_span [w_leaf]]).
+Definition w_op_plain : definition := DOp (mkOperation OpQuery w_pos None [] [] w_span [w_leaf]).
+Definition w_doc : document := [w_op_with_var; w_op_plain].
+Definition w_doc_rev : document := [w_op_plain; w_op_with_var].
+
+Example C07_anonymous_operations_have_their_own_tables :
+  match pool_minimal with
+  | Some s =>
+      distinct_operations w_doc = false /\ distinct_fragments w_doc = true /\
+      run_alone R_NoUndefinedVariables s w_doc = [] /\
+      violated R_NoUndefinedVariables s w_doc = false /\
+      run_alone R_NoUndefinedVariables s w_doc_rev = [] /\
+      run_alone R_NoUnusedVariables s w_doc = [] /\
+      run_alone R_NoUnusedVariables s w_doc_rev = [] /\
+      violated R_NoUnusedVariables s w_doc = false
+  | None => False
+  end.
+Proof. vm_compute. repeat split. Qed.
+Print Assumptions C07_anonymous_operations_have_their_own_tables.
